@@ -85,8 +85,8 @@ struct Cx<'tcx> {
 /// std helpers whose bodies are exported (they only move values around and call the closure they are given)
 fn extern_whitelisted(path: &str) -> bool {
     const PREFIXES: [&str; 4] = ["core::option::Option::<T>::", "std::option::Option::<T>::", "core::result::Result::<T, E>::", "std::result::Result::<T, E>::"];
-    const METHODS: [&str; 34] = [
-        "map", "map_err", "map_or", "map_or_else", "ok", "err", "ok_or", "ok_or_else", "and_then", "or_else", "and", "or",
+    const METHODS: [&str; 36] = [
+        "unwrap", "expect", "map", "map_err", "map_or", "map_or_else", "ok", "err", "ok_or", "ok_or_else", "and_then", "or_else", "and", "or",
         "unwrap_or", "unwrap_or_else", "unwrap_or_default", "is_some", "is_none", "is_ok", "is_err", "is_some_and", "is_ok_and",
         "is_err_and", "is_none_or", "filter", "then", "then_some", "as_ref", "as_mut", "copied", "cloned", "take", "inspect",
         "inspect_err", "unwrap_unchecked",
@@ -273,6 +273,15 @@ impl<'tcx> Cx<'tcx> {
                 if let ty::Adt(ad, _) = cty.kind() {
                     if !kv.iter().any(|(k, _)| *k == "adt") {
                         kv.push(("adt", esc(&self.path(ad.did()))));
+                    }
+                }
+                // `<RW as Trait>::CONST` in a generic function: name the constant, the analysis substitutes the impl's value
+                if let mir::Const::Unevaluated(uv, _) = c.const_ {
+                    if uv.promoted.is_none() && matches!(tcx.def_kind(uv.def), DefKind::AssocConst { .. }) {
+                        if let Some(tr) = tcx.trait_of_assoc(uv.def) {
+                            kv.push(("assoc_const", esc(&tcx.item_name(uv.def).to_string())));
+                            kv.push(("assoc_trait", esc(&self.path(tr))));
+                        }
                     }
                 }
                 // `&Enum::UnitVariant` promoted out of a (generic) function: read the variant off the promoted body
@@ -713,6 +722,14 @@ impl<'tcx> Cx<'tcx> {
                         ikv.push(("vis", esc(&format!("{:?}", tcx.visibility(it.def_id)))));
                         let sig = tcx.fn_sig(it.def_id).instantiate_identity().skip_norm_wip();
                         ikv.push(("sig", esc(&with_no_trimmed_paths!(sig.to_string()))));
+                    }
+                    if matches!(tcx.def_kind(it.def_id), DefKind::AssocConst { .. }) {
+                        // value of an associated constant that does not depend on the impl's parameters
+                        if let Ok(cv) = tcx.const_eval_poly(it.def_id) {
+                            if let Some(si) = cv.try_to_scalar_int() {
+                                ikv.push(("value", esc(&format!("{}", si.to_bits_unchecked()))));
+                            }
+                        }
                     }
                     items.push(obj(ikv));
                 }
